@@ -8,10 +8,13 @@ arguments are drawn from the light model of the *current* live files
 construction (DESIGN Appendix C).  check_case(journal) replays a journal
 without Hypothesis."""
 import gc
+import os
+import sys
+import zlib
 
 from hypothesis import strategies as st
 
-from ..core import Result, exc_where
+from ..core import Result, exc_where, canon
 from .. import spec as S
 from .. import agentB_ops as O
 from .. import known
@@ -26,7 +29,7 @@ RULE = ('Stateful Hypothesis search (interactive draws, journal replay). '
         'from_ncf, from_ncvs or saved (NETCDF3_CLASSIC/NETCDF4) and reopened '
         'as class netcdf; or an IOAPI file (gridded or boundary, 1-3 '
         'variables, 1-4 steps/layers/rows/cols) from ioapi_base.from_arrays. '
-        'Then 2-10 steps; each picks a live file (mostly the latest result) '
+        'Then 2-10 steps (thorough: 2-25); each picks a live file (mostly the latest result) '
         'and one operation of copy (all flag combinations), sliceDimensions '
         '(int/slice/list, zipped lists with fresh newdims), '
         'applyAlongDimensions (named reducers, shape-deterministic '
@@ -62,8 +65,17 @@ ASSUMPTIONS = [
     'are outside the domain of the IOAPI wrappers',
     'reducers/callables are only applied along non-empty dimensions '
     '(numpy has no identity for min/max of an empty axis)']
-BUDGET = {'quick': dict(examples=2400, max_s=200, shrink_cap=300),
-          'thorough': dict(examples=60000, max_s=2400, shrink_cap=600)}
+# max_s is deliberately generous: the runner's time-budget test makes an
+# interactive body stop drawing, which Hypothesis reports as flaky data
+# generation when it re-uses a recorded prefix - the budget must never be
+# the binding limit for this module (examples is)
+BUDGET = {'quick': dict(examples=2400, max_s=900, shrink_cap=300),
+          'thorough': dict(examples=120000, max_s=6000, shrink_cap=600)}
+# interactive() is not told the tier by the runner
+THOROUGH = 'thorough' in sys.argv or \
+    os.environ.get('VERIF_TIER') == 'thorough'
+MAX_STEPS = 25 if THOROUGH else 10
+MAX_N = 4 if THOROUGH else 3
 CRASH_IS_VIOLATION = False
 
 MAX_LIVE = 5
@@ -272,15 +284,10 @@ class Run(object):
                 nt = True
         r.label('chain:%d' % min(best, 8))
         r.nontrivial = nt
-        for f in self.keep:
-            try:
-                f.close()
-            except Exception:
-                pass
+        e = None
         self.files = []
         if self.keep:
-            self.keep = []
-            gc.collect()
+            O.close_all(self.keep)
         return r
 
 
@@ -321,10 +328,10 @@ known.register('C01-eval-masked-scalar', lambda spec, f: (
     f.where == 'AttributeError@core/_variables.py:__new__' and
     f.klass.startswith('eval:') and 'scalarvar' in _ctx(f)))
 
-known.register('C01-ioapi-rename-varlist', lambda spec, f: (
+known.register('C01-ioapi-getvarlist-redim', lambda spec, f: (
     f.clause == 'malformed' and 'baddims=VAR ' in f.detail and
-    'cls=ioapi' in _ctx(f) and 'degraded' not in _ctx(f) and
-    _has_step(spec, 'renvar')))
+    f.klass.endswith('/live') and ' live file ' in f.detail and
+    'cls=ioapi' in _ctx(f) and 'degraded' not in _ctx(f)))
 
 known.register('C01-ioapi-var-redim', lambda spec, f: (
     f.clause == 'malformed' and 'baddims=VAR ' in f.detail and
@@ -333,9 +340,9 @@ known.register('C01-ioapi-var-redim', lambda spec, f: (
 
 # ------------------------------------------------------------------ search
 def draw_init(draw):
-    kind = draw(st.sampled_from(['generic'] * 5 + ['char'] + ['ioapi'] * 3))
+    kind = draw(st.sampled_from(['generic'] * 5 + ['char'] * 2 + ['ioapi'] * 3))
     if kind == 'ioapi':
-        return draw(O.ioapi_specs(max_n=3))
+        return draw(O.ioapi_specs(max_n=MAX_N))
     fs = draw(O.generic_specs(char=(kind == 'char'), max_len=4, max_dims=4,
                               max_vars=4, max_rank=3, vrange=60))
     if kind == 'char' and not any(v['dtype'] == 'S1' for v in fs['vars']):
@@ -350,9 +357,10 @@ WEIGHTS = dict(slice=3, apply=2, stack=2, insert=2, rmsing=2, reorder=2,
 
 def interactive(draw):
     init = draw_init(draw)
+    rot0 = zlib.crc32(canon(init).encode())
     run = Run(init)
     try:
-        n = draw(st.integers(2, 10))
+        n = draw(st.integers(2, MAX_STEPS))
         for _ in range(n):
             if run.dead or run.r.failures:
                 break
@@ -365,7 +373,8 @@ def interactive(draw):
             if draw(st.integers(0, 9)) == 0:
                 step = O.draw_ood(draw, info)
             else:
-                step = O.draw_step(draw, info, weights=WEIGHTS)
+                step = O.draw_step(draw, info, weights=WEIGHTS,
+                                   rot=5 * len(run.journal['steps']) + rot0)
             step['on'] = idx
             run.execute(step)
     finally:
